@@ -1402,9 +1402,10 @@ class Gen:
     PLANT_KINDS = ('div0_idiv', 'div0_mod', 'div0_fdiv', 'ovf_int', 'ovf_long',
                    'ovf_conv', 'ovf_mul', 'ovf_neg', 'ovf_sngband', 'subscript', 'ill_chr',
                    'ill_chr_hi', 'ill_asc', 'ill_mid', 'ill_space', 'ill_string',
-                   'ill_left', 'ill_instr', 'out_of_data', 'bad_data', 'data_ovf', 'div0_dyndim', 'subscript_dynbounds')
+                   'ill_left', 'ill_instr', 'out_of_data', 'bad_data', 'data_ovf', 'div0_dyndim', 'subscript_dynbounds', 'nogosub_return')
     PLANT_TRAP = {'div0': 'DIVISION_BY_ZERO', 'ovf': 'INVALID_CELL_VALUE',
                   'subscript': 'INDEX_OUT_OF_RANGE', 'ill': 'INVALID_OPERAND_VALUE',
+                  'nogosub': 'RETURN_WITHOUT_GOSUB',
                   'out': 'DEVICE_ERROR', 'bad': 'DEVICE_ERROR', 'data': 'INVALID_CELL_VALUE'}
 
     def plant(self, sc, kind=None, fold=None, depth=None, form=None):
@@ -1439,6 +1440,10 @@ class Gen:
 
         ty = '%'
         self.post_plant = []
+        if kind == 'nogosub_return':
+            # RETURN while no GOSUB is pending (module-level code in front of END)
+            self.last_repairs = None
+            return pre, {'k': 'return', 'plant': kind}
         if kind == 'subscript_dynbounds':
             # a dynamic array whose run-time bounds are inverted in the first,
             # a middle or the last dimension
@@ -1678,7 +1683,8 @@ class Gen:
         for _ in range(nplants):
             kind = None
             if onerr == 'goto_resume':
-                kind = r.choice([k for k in self.PLANT_KINDS if k not in ('out_of_data', 'bad_data', 'data_ovf')])
+                kind = r.choice([k for k in self.PLANT_KINDS if k not in ('out_of_data', 'bad_data', 'data_ovf',
+                                                                          'nogosub_return')])
             pre, st = self.plant(sc, kind=kind, fold=False if onerr == 'goto_resume' else None,
                                  form=r.choice(('let', 'let', 'print', 'let', 'print', 'cond', 'elseif',
                                                 'case', 'loop')) if self.p.get('plants') else None)
